@@ -167,6 +167,7 @@ class Gen:
                                I64MAX, I64MAX - 1, rng.randrange(0, 200)])
             ln = rng.choice([0, 0, 1, 1, 5, 10, max(self.size - base, 0) if base >= 0 else 1, self.size, -1, I64MAX, I64MAX - max(base, 0),
                              min(I64MAX, I64MAX - max(base, 0) + 1)])
+            base, ln = min(base, I64MAX), min(ln, I64MAX)      # arguments are int64_t
             if 0 <= base and 0 <= ln and base + ln <= self.size and base >= self.end:
                 self.end = base + ln
             return f'sparse_add {base} {ln}'
@@ -230,6 +231,21 @@ ENUM3_OPS = [o for o in ENUM_OPS if o.split()[0] in (
 class Ent(Engine):
     name = 'ent'
     repo_deps = ('libarchive/archive_entry_private.h',)
+    CHUNK_LINES = 30000
+
+    def run_impl(self, exe, cases):
+        """Feed the harness in chunks: it keeps every input line in memory and forks once per case, and the cost of a
+        fork under ASan grows with the size of the parent's heap."""
+        out, errs, chunk, n = [], [], [], 0
+        for c in cases:
+            chunk.append(c); n += len(c.ops)
+            if n >= self.CHUNK_LINES:
+                o, e = Engine.run_impl(self, exe, chunk)
+                out += o; errs.append(e); chunk, n = [], 0
+        if chunk:
+            o, e = Engine.run_impl(self, exe, chunk)
+            out += o; errs.append(e)
+        return out, ''.join(errs)[-20000:]
 
     def gen(self, rng, tier):
         n = 1300 if tier == 'quick' else 30000
